@@ -177,6 +177,15 @@ PropWindow(h, o, ww, settled) ==
   IN /\ K \subseteq G
      /\ settled => {g \in G : g.c # 0} \subseteq K
 
+(* A tool that reads a finite history and exits (decode1090) has closed every *)
+(* window at exit: its output must contain every reference group, closed or   *)
+(* still open at the last arrival, each as one record (when a record left is  *)
+(* not observable there, so the closing arrival is not compared)              *)
+PropWindowAtExit(h, o, ww) ==
+  LET Proj(g) == [f |-> g.f, s |-> g.s, ids |-> g.ids]
+      K == {[f |-> o[k].f, s |-> o[k].m[1][1], ids |-> Ids(o[k])] : k \in DOMAIN o}
+  IN K = {Proj(g) : g \in RefGroups(h, ww)}
+
 (* non-decreasing arrival times: same-frame records at least ww apart and   *)
 (* records leave in order of first arrival (millisecond granularity)        *)
 Monotone(h) == \A i \in 1..(Len(h) - 1) : h[i].t <= h[i + 1].t
@@ -198,4 +207,5 @@ Conservation ==
 RecordShape == PropShape(hist, out)
 WindowProp == PropWindow(hist, out, w, Settled)
 MonoProps == PropMono(hist, out, w)
+ExitProp == (now = INF /\ heap = {}) => PropWindowAtExit(hist, out, w)   \* after Close and a complete flush
 =============================================================================
